@@ -12,7 +12,8 @@ import json, os, re, shutil, subprocess, sys, tempfile, time
 V = os.path.dirname(os.path.dirname(os.path.abspath(__file__)))
 pid, n, demo_dir, module = sys.argv[1], sys.argv[2], sys.argv[3], sys.argv[4]
 demo_args = sys.argv[5:]
-src = "/tmp/seed-out/%s/change%s" % (pid, n)
+src = "%s/%s/change%s" % (os.environ.get("SEED_SRC", "/tmp/seed-out"), pid, n)
+label = str(int(n) + int(os.environ.get("SEED_OFFSET", "0")))
 patch = os.path.join(src, "patch.diff")
 wt = tempfile.mkdtemp(prefix="wt-val-")
 env = dict(os.environ, GOPROXY="off")
@@ -76,8 +77,8 @@ if ok:
     classes = {}
     for m in re.finditer(r"check: violation class=(\S+) seed=(\d+) replay_reproduced=(\S+)", txt):
         classes[m.group(1)] = classes.get(m.group(1), 0) + 1
-    out["check"] = {"cmd": "tools/mutant.sh seeded/%s-%s/patch.diff %s --tier quick" % (pid, n, pid), "exit": r.returncode, "caught": r.returncode == 1, "classes": classes, "wall_s": round(time.time() - t0, 1)}
-    dst = os.path.join(V, "seeded", "%s-%s" % (pid, n))
+    out["check"] = {"cmd": "tools/mutant.sh seeded/%s-%s/patch.diff %s --tier quick" % (pid, label, pid), "exit": r.returncode, "caught": r.returncode == 1, "classes": classes, "wall_s": round(time.time() - t0, 1)}
+    dst = os.path.join(V, "seeded", "%s-%s" % (pid, label))
     os.makedirs(dst, exist_ok=True)
     shutil.copy(patch, os.path.join(dst, "patch.diff"))
     for f in demos:
